@@ -65,12 +65,36 @@ def location(cfg, root):
     return name
 
 
+def ensure_link(cfg, root):
+    """cfg['link']: the archive's path is a symbolic link (made once, before the archive is first opened) to
+    a directory / file that lives elsewhere in the sandbox, e.g. a cache symlinked to shared storage"""
+    kind = cfg['kind']
+    if kind not in ('file', 'dir', 'sql') or cfg['opts'].get('memory') or cfg.get('rel'):
+        return
+    loc = location(cfg, root)
+    path = loc[len('sqlite:///'):].split('?')[0] if kind == 'sql' else loc
+    if os.path.lexists(path):
+        return
+    store = os.path.join(root, 'store-' + os.path.basename(path))
+    if kind == 'dir':
+        os.makedirs(store, exist_ok=True)
+    os.symlink(os.path.basename(store), path)       # relative: survives copying the sandbox
+
+
+def with_link(rng, label, cfg, p=0.08):
+    if cfg is not None and label in PERSISTENT and rng.chance(p):
+        cfg['link'] = True
+    return cfg
+
+
 def make(cfg, root, cached=False, seed=None):
     """build the archive (public constructor); seed = initial dict or None"""
     import klepto.archives as ka
     kind = cfg['kind']
     opts = dict(cfg['opts'])
     loc = location(cfg, root)
+    if cfg.get('link'):
+        ensure_link(cfg, root)
     if kind == 'dict':
         return ka.dict_archive(loc, seed, cached)
     if kind == 'null':
